@@ -13,7 +13,9 @@
 //	closed   a Read/Write invoked after that end's Close returned fails and transfers nothing;
 //	cause    every error has a cause in the history (own close, peer close, armed deadline);
 //	timeout  an error returned because of a deadline is a net.Error with Timeout();
-//	liveness all goroutines finish (watchdog => INCONCLUSIVE, the pending call is dumped);
+//	liveness all goroutines finish; a run that does not is a violation iff the goroutine dump
+//	         proves a deadlock (all parties parked in bufconn / on the run's own channels, no
+//	         deadline set), else the watchdog reports INCONCLUSIVE with the pending call;
 //	races    any race-detector report with a frame in util/bufconn.
 package main
 
@@ -25,6 +27,7 @@ import (
 	"math/rand"
 	"net"
 	"os"
+	"regexp"
 	"runtime"
 	"sort"
 	"strings"
@@ -209,13 +212,13 @@ type runState struct {
 
 	finished [4]chan struct{}
 
-	armed      [2][2]atomic.Bool // [end][0 read,1 write]: a non-zero deadline was set at some point
-	dlSet      [2][2]atomic.Bool // [end][0 read,1 write]: a deadline is set right now (a timer may still fire)
-	acked      [2]atomic.Int64   // bytes of acknowledged writes of end e
-	got        [2]atomic.Int64   // bytes read so far from end e's writes
+	armed [2][2]atomic.Bool // [end][0 read,1 write]: a non-zero deadline was set at some point
+	dlSet [2][2]atomic.Bool // [end][0 read,1 write]: a deadline is set right now (a timer may still fire)
+	acked [2]atomic.Int64   // bytes of acknowledged writes of end e
+	got   [2]atomic.Int64   // bytes read so far from end e's writes
 
-	gmu   sync.Mutex
-	goids map[uint64]string // live goroutines of this run
+	gmu        sync.Mutex
+	goids      map[uint64]string // live goroutines of this run
 	noProgress atomic.Bool
 }
 
@@ -300,6 +303,7 @@ func (s *runState) writer(end int, seed int64, wg *sync.WaitGroup) {
 			if !p.DlByOther {
 				c := l.begin(end, "setwd", p.DlMillis, nil)
 				s.armed[end][1].Store(true)
+				s.dlSet[end][1].Store(true)
 				err := conn.SetWriteDeadline(time.Now().Add(time.Duration(p.DlMillis) * time.Millisecond))
 				l.end(c, 0, err)
 			}
@@ -311,11 +315,15 @@ func (s *runState) writer(end int, seed int64, wg *sync.WaitGroup) {
 		c := l.begin(end, "write", sz, data)
 		n, err := conn.Write(data)
 		l.end(c, n, err)
+		if err == nil {
+			s.acked[end].Add(int64(n))
+		}
 		if dlWrite {
 			s.release()
 			if c.ErrCls == "timeout" {
 				cc := l.begin(end, "setwd", 0, nil)
 				e2 := conn.SetWriteDeadline(time.Time{})
+				s.dlSet[end][1].Store(false)
 				l.end(cc, 0, e2)
 			}
 		}
@@ -364,6 +372,7 @@ func (s *runState) reader(end int, seed int64, wg *sync.WaitGroup) {
 		if dlDir && p.Mode == "rdeadline" && !p.DlByOther && i == 0 {
 			c := l.begin(end, "setrd", p.DlMillis, nil)
 			s.armed[end][0].Store(true)
+			s.dlSet[end][0].Store(true)
 			err := conn.SetReadDeadline(time.Now().Add(time.Duration(p.DlMillis) * time.Millisecond))
 			l.end(c, 0, err)
 		}
@@ -379,6 +388,9 @@ func (s *runState) reader(end int, seed int64, wg *sync.WaitGroup) {
 			c.data = append([]byte(nil), buf[:n]...)
 		}
 		l.end(c, n, err)
+		if n > 0 {
+			s.got[1-end].Add(int64(n))
+		}
 		if err == nil && n == 0 && sz > 0 {
 			idle++
 		}
@@ -392,10 +404,12 @@ func (s *runState) reader(end int, seed int64, wg *sync.WaitGroup) {
 				}
 				cc := l.begin(end, "setrd", 0, nil)
 				e2 := conn.SetReadDeadline(time.Time{})
+				s.dlSet[end][0].Store(false)
 				l.end(cc, 0, e2)
 				if dlDir && !isClosed(s.released) {
 					// arm again: the starved read is still to come
 					c := l.begin(end, "setrd", p.DlMillis, nil)
+					s.dlSet[end][0].Store(true)
 					err := conn.SetReadDeadline(time.Now().Add(time.Duration(p.DlMillis) * time.Millisecond))
 					l.end(c, 0, err)
 				}
@@ -434,12 +448,14 @@ func (s *runState) armer(seed int64, wg *sync.WaitGroup) {
 		end := p.Initiator
 		c := l.begin(end, "setwd", p.DlMillis, nil)
 		s.armed[end][1].Store(true)
+		s.dlSet[end][1].Store(true)
 		err := s.conns[end].SetWriteDeadline(time.Now().Add(d))
 		l.end(c, 0, err)
 	} else {
 		end := 1 - p.Initiator
 		c := l.begin(end, "setrd", p.DlMillis, nil)
 		s.armed[end][0].Store(true)
+		s.dlSet[end][0].Store(true)
 		err := s.conns[end].SetReadDeadline(time.Now().Add(d))
 		l.end(c, 0, err)
 	}
@@ -548,6 +564,19 @@ func (s *runState) provenDeadlock() (proven bool, parked []string, detail string
 	sort.Strings(parked)
 	sort.Strings(lines)
 	return true, parked, strings.Join(append(append([]string{}, parked...), lines...), "; ")
+}
+
+// conservation describes, per direction, how many acknowledged bytes have not been read.
+func (s *runState) conservation() string {
+	out := ""
+	for e := 0; e < 2; e++ {
+		a, g := s.acked[e].Load(), s.got[e].Load()
+		out += fmt.Sprintf("; %c->%c: %d bytes acknowledged, %d read", 'A'+e, 'A'+1-e, a, g)
+		if a > g {
+			out += fmt.Sprintf(" (%d acknowledged bytes sit in the pipe while its reader is not woken: lost wakeup)", a-g)
+		}
+	}
+	return out
 }
 
 type outcome struct {
@@ -915,7 +944,7 @@ func main() {
 	r := ev.Start("C39", "exploration")
 	r.SetRule("one run = one real BufferedPipe(buf), buf in 1..64 (biased to 1..3), a writer and a reader goroutine per end (chunks of 0..4*buf bytes, read buffers 0..2*buf+2, seeded Gosched/sleep yields), the initiator closing after its last write, the responder after its reader ended, in 1/3 of the runs an early Close of either end after the k-th op of a seeded goroutine (inline or from a third goroutine), and in 2/5 of the runs a read or write deadline (armed by the caller or by a third goroutine) on a call that is logically starved: the peer goroutine is gated until the timeout was seen. Non-trivial: >= 1 byte was transferred and checked. Distinct by (mode, buffer bucket, initiator, early-close end/kind, some chunk > buffer, traffic > 2*buffer, timeout observed on the starved call, a failed write contributed a prefix, number of directions read to EOF)")
 	r.Assume("schedules are sampled by the Go scheduler under seeded yields and parallel load, not enumerated; one writer and one reader goroutine per direction (plus closers / deadline setters), as in the property's quantifier")
-	r.Assume("a call that never returns is reported as INCONCLUSIVE by a 60 s watchdog (with the pending call), not as a violation")
+	r.Assume("a run that does not finish is a violation only if the scheduler's goroutine dump proves that no progress is possible (every goroutine of the run parked in sync.Cond.Wait inside bufconn or blocked on the run's own channels, no deadline set, two identical looks); otherwise the 60 s watchdog reports INCONCLUSIVE with the pending call")
 	r.Assume("a failed Write may have transferred a prefix of its bytes although it reports n=0 (the statement does not pin the count down); timeouts are only required to be well-formed and to have an armed deadline as cause, a late timer firing after a deadline was cleared is not judged")
 	r.Assume("a zero-length Write on a closed end is not judged (on the pinned tree it returns (0, nil) after the end's own Close, an error after the peer's Close); it is counted")
 	n := r.Pick(8000, 250000)
@@ -960,6 +989,14 @@ func main() {
 	for out := range results {
 		name := fmt.Sprintf("run%d", out.plan.Run)
 		p := out.plan
+		if out.deadlock != "" {
+			stop.Store(true)
+			r.Count("runs_deadlocked", 1)
+			r.Case("")
+			fmt.Fprintf(os.Stderr, "DEADLOCK %s plan=%+v: %s\n%s\n", name, p, out.deadlock, out.deadlockDump)
+			r.Violation("deadlock:all-parties-parked", name, fmt.Sprintf("buf=%d mode=%s: nobody closed an end and no deadline is set, yet every goroutine of the run is parked for good (pending calls: %s): %s", p.Buf, p.Mode, strings.Join(out.hung, ", "), out.deadlock), map[string]any{"plan": p, "pending": out.hung, "goroutines": out.deadlock, "dump": out.deadlockDump})
+			continue
+		}
 		if len(out.hung) > 0 {
 			r.Count("runs_hung", 1)
 			stop.Store(true)
